@@ -8,6 +8,8 @@ R24b  under EXCLUSIVE ownership a sample is dropped (NotAdded) only when its wri
       not block other writers
 R24c  a missed requested deadline releases the instance's ownership
 R24d  dispose / unregister releases the instance's ownership
+R24h  the dispose / unregister test that releases the ownership dominates every later NotAdded / Rejected exit (time-based
+      filter, resource limits): a not-alive change of the owner that a later filter drops still releases the instance
 R24e  the strength comparison keeps the incumbent on ties (`writer <= owner` is dropped): ties are
       broken consistently
 """
@@ -102,6 +104,35 @@ def run(ctx, rep):
     # R24d: not-alive changes release ownership
     rel = [(bb, t) for bb, t in fc.calls("Vec::remove", "Vec::retain", "Vec::swap_remove") if t.args and field_of(fc.arg(t, 0)) == "instance_ownership"]
     add("R24d", "dispose / unregister releases the instance ownership", bool(rel), "no removal from instance_ownership in add_reader_change")
+    # R24h: the release is decided before any later filter can drop the change: every NotAdded / Rejected exit that is not part
+    # of the ownership filter itself is reached from the end of that filter only through a test of the change kind (the test
+    # that leads to the removal; a stored `matches!` verdict is followed) (a dispose / unregister of the owner that the time-based filter or a resource limit then drops would otherwise
+    # leave the departed writer recorded as owner: every weaker writer is ignored from then on)
+    nh = 0
+    if rel:
+        # switches on the discriminant of a ChangeKind value (the type is read from the MIR `discriminant(..)` statement)
+        kind_blocks = set()
+        for kb, blk in enumerate(m.blocks):
+            for st in blk.stmts:
+                if st.rv is not None and st.rv.kind == "discr" and str(st.rv.ty or "").split("::")[-1] == "ChangeKind" \
+                        and blk.term.kind == "switch":
+                    kind_blocks.add(kb)
+
+        def kind_test(e, outcome, ce=None):
+            return ce is not None and getattr(ce, "bb", None) in kind_blocks and E.strip_casts(e)[0] == "discr"
+        start = shared if shared is not None else excl_t
+        after = m.reachable(start)
+        exits = [(bb, s) for bb, i, s in m.stmts() if s.kind == "assign" and s.rv is not None
+                 and (s.rv.is_adt("AddChangeResult", "NotAdded") or s.rv.is_adt("AddChangeResult", "Rejected"))
+                 and bb not in region and bb in after]
+        found_h = fc.reach_avoiding([bb for bb, _ in exits], kind_test, start=start)
+        for bb, s in exits:
+            nh += 1
+            add("R24h", "ownership release is decided before a later filter / limit can drop the change", bb not in found_h,
+                "this exit is reachable from the end of the ownership filter without passing the dispose / unregister test that "
+                "releases instance_ownership: an unregister of the owner dropped here keeps the departed writer as owner; witness blocks %s"
+                % (found_h.get(bb),), s.line)
+    rep.floor("R24h", nh, 2, "NotAdded / Rejected exits after the ownership filter")
     # R24c
     d = fx.fn("DcpsDomainParticipant", "check_missed_reader_deadline")
     df = FnCtx(d)
